@@ -34,6 +34,9 @@ CHECKS = {
  "C15": dict(cat="model_checking", technique="explicit-state search to the fixpoint of the pause machine driven through the real instructions, time-abstract state key, region grid plus bounded off-grid deviations",
    text="All reachable states of the emergency-pause machine (pause / admin unpause / permissionless unpause / propagate / time ticks on the 600 s region grid plus <=1 (quick) or <=2 (thorough) one-second deviations) are explored to the fixpoint through marginfi::entry; every pause edge and every state is checked against the 30-minute push, 60-minute horizon, three-per-window and 24-hour reset bounds, and a user deposit probe shows blocking ends without anyone acting.",
    ref="6 C15"),
+ "C16": dict(cat="model_checking", technique="explicit-state BFS over position-opening/closing sequences through the real entrypoint across banks of every asset tag and tier; structural invariant oracle on every changed account; slot-exhaustion and component sweeps",
+   text="Every unpruned action sequence up to depth 3 (quick) / 4 (thorough) of deposits, withdrawals, borrows, repayments, close-balance, liquidations in every bank combination, transfers and account closes over default / SOL / staked (forged StakedWithPythPush) / isolated banks; after each committed transaction every changed account must have distinct banks, one side per bank, a sorted active prefix, compatible tags, bounded counts and stable tags; closes, disabled accounts and transfers are judged on pre/post states; plus a 17-bank slot-exhaustion run and a 0..16 x 0..9 x 6-tag sweep of the position-opening routine.",
+   ref="6 C16"),
  "C17": dict(cat="model_checking", technique="explicit-state BFS through the real entrypoint from roots whose limits sit at boundary offsets from the current totals; exact post-state cap/utilisation oracle and an up-to-limit deposit probe in every state",
    text="From states with accruing banks whose deposit/borrow limits were set (via the real limits-only instruction) to floor(total)+{-1,0,1,2,...} and {0,1,2,u64::MAX-1,u64::MAX}, and from a highly utilised bank, every sequence up to depth 2 (quick) / 3 (thorough) incl. a 1 s / 1 y clock advance is executed; after each committed step totals are compared exactly with the limits and each other; an up-to-limit deposit probe must never fail for capacity.",
    ref="6 C17"),
